@@ -70,3 +70,17 @@ def classify(check, fails, live):
         seen.add(key)
         check.violation(dict(family="schema", clause=f["clause"], expected=f.get("want"), got=f.get("got"), input=f["input"]),
                         "%s: spec says %s, code says %s" % (f["clause"], f.get("want"), f.get("got")))
+
+
+def oracle_selfcheck(check, vh, module, live):
+    """The oracle must agree with every label of the repository's draft-4 suite (validates the SPEC, not the code)."""
+    wd = common.workdir("%s-suite" % check.prop)
+    common.run([vh, "drive-suite", "-out", wd])
+    meta = json.load(open(os.path.join(wd, "meta.json")))
+    r, fails = eval_chunk(chunks(wd)[0], module, sorted(live))
+    check.add_tlc(r)
+    bad = [f for f in fails if f["clause"] == "suite-label"]
+    if bad:
+        raise Inconclusive("the TLA+ oracle disagrees with %d labelled suite instances, e.g. %s" % (len(bad), json.dumps(bad[0])[:600]))
+    check.coverage["oracle_suite_labels_agreed"] = meta["events"]
+    return [f for f in fails if f["clause"] != "suite-label"], meta
